@@ -355,8 +355,8 @@ class PersistenceImager(TransformerMixin):
             int(np.ceil((pers_range[1] - pers_range[0]) / pixel_size)) * pixel_size
         )
         self._resolution = (
-            int(self._width / self._pixel_size),
-            int(self._height / self._pixel_size),
+            int(round(self._width / self._pixel_size)),
+            int(round(self._height / self._pixel_size)),
         )
         self._create_mesh()
 
@@ -420,8 +420,8 @@ class PersistenceImager(TransformerMixin):
             * self.pixel_size
         )
         self._resolution = (
-            int(self.width / self.pixel_size),
-            int(self.height / self.pixel_size),
+            int(round(self.width / self.pixel_size)),
+            int(round(self.height / self.pixel_size)),
         )
         self._create_mesh()
 
@@ -445,8 +445,8 @@ class PersistenceImager(TransformerMixin):
             * self._pixel_size
         )
         self._resolution = (
-            int(self.width / self.pixel_size),
-            int(self.height / self.pixel_size),
+            int(round(self.width / self.pixel_size)),
+            int(round(self.height / self.pixel_size)),
         )
         self._create_mesh()
 
@@ -470,8 +470,8 @@ class PersistenceImager(TransformerMixin):
             * self._pixel_size
         )
         self._resolution = (
-            int(self.width / self.pixel_size),
-            int(self.height / self.pixel_size),
+            int(round(self.width / self.pixel_size)),
+            int(round(self.height / self.pixel_size)),
         )
         self._create_mesh()
 
